@@ -15,6 +15,10 @@ Undecided answers never raise an alarm.  The Coq part (coq/Skel, Props/Propertie
 bookkeeping steps of the solver keep "disc contains a root" invariant as long as every freshly computed radius
 satisfies the Newton contract, the count identity under deflation, and exactly-one-root for pairwise disjoint discs.
 
+DPE-PHASE MULTIPLE ROOTS (polygen.c01_dpe_multiple_cases): a double and a triple root in equations whose coefficient range is
+beyond the double range (roots ~1e+-400, all coefficients * 10^+-400, all roots * 10^-120), classic and secular algorithm, goals
+isolate / approximate, 3 and 5 output digits (one 20-digit control), so that the clusters are declared approximated by the DPE-phase
+status update (mps_dmodify); judged by the same four clauses (clause (d) is the one at stake).
 Two more families:  REUSE (harness/c01_reuse.c): sequences of 2-3 solves on ONE context, every segment judged as above.
 EVENT TRACES (harness/c01_trace.c, bin/trc = extracted coq/Skel/TraceDefs.v): ~30 solves are repeated with the six Newton
 entry points wrapped at link time; the disc of every root at every Newton entry / exit and the returned disc form a
@@ -22,7 +26,7 @@ per-root trace; the extracted acceptor classifies every transition (contains the
 FRESH) and every fresh radius is an obligation validated by the oracle (C01_trace_sound: obligations hold => every disc
 along the trace holds); every improve_root step must be move-and-enlarge of its Newton disc (extracted improve_step_ok,
 up to the rounding of the DPE additions)."""
-import os, json, collections
+import os, json, collections, random
 from fractions import Fraction as Fr
 import vf, solve as S, polygen as G, e2e
 
@@ -132,6 +136,42 @@ def build_cases(ctx):
         if c["cls"] == "leading-zero":
             co.append((c, with_threads(["-a", "u", "-G", "i"]))); co.append((c, with_threads(["-a", "s", "-G", "i"])))
     return co
+
+
+# ----------------------------------------------------------------------------- multiple roots settled in the DPE phase
+DPEMULT_PLAN = [          # (case, algorithm, goal, output digits)
+    ("dpemult_big", "u", "i", 3), ("dpemult_big", "u", "a", 3), ("dpemult_big", "s", "i", 5), ("dpemult_big", "s", "a", 3), ("dpemult_big", "u", "a", 20),
+    ("dpemult_small", "u", "i", 3), ("dpemult_small", "u", "a", 3), ("dpemult_small", "s", "i", 5), ("dpemult_small", "s", "i", 20),
+    ("dpemult_coef_up", "u", "i", 3), ("dpemult_coef_up", "s", "a", 3), ("dpemult_coef_up", "u", "a", 5),
+    ("dpemult_coef_down", "u", "a", 3), ("dpemult_coef_down", "s", "i", 5),
+    ("dpemult_rootscale", "u", "i", 3), ("dpemult_rootscale", "u", "a", 5), ("dpemult_rootscale", "s", "a", 3),
+]
+
+
+def dpe_multiple_jobs(ctx):
+    """(case, options) of the family 'multiple roots solved in the DPE phase at low output precision'.  The generator draws
+    from a generator seeded from ctx.rng whose state is then put back, so the other families see the stream they always saw."""
+    st = ctx.rng.getstate(); sub = random.Random(ctx.rng.getrandbits(64)); ctx.rng.setstate(st)
+    cs = {c["name"]: c for c in G.c01_dpe_multiple_cases(sub)}
+    return [(cs[nm], with_threads(["-a", a, "-G", g, "-o", str(o)])) for nm, a, g, o in DPEMULT_PLAN]
+
+
+def dpe_multiple_histogram(recs):
+    """evidence view of the family: per solve the phase it ended in and the statuses returned; totals per phase / status"""
+    fam = [r for r in recs if r["case"]["cls"] == "multiple-roots-dpe-phase"]
+    per = {}; tot = collections.Counter()
+    for rec in fam:
+        r = rec["res"]; key = "%s %s" % (rec["case"]["name"], " ".join(x for x in rec["opts"] if x not in ("-j", "1")))
+        if r.kind != "ok":
+            per[key] = "not judged: solve ended as " + r.kind; tot["solve:" + r.kind] += 1; continue
+        ph = PH.get(r.meta.get("lastphase"), "?") if r.meta else "?"
+        sts = collections.Counter(S.STATUS[x.status] for x in r.roots)
+        per[key] = "last phase %s; %s; %s" % (ph, ", ".join("%d %s" % (v, k) for k, v in sorted(sts.items())),
+                                             "judged by the oracle" if rec["oracle"] is not None else "not judged (%s)" % (rec["why"].split(":")[0] or "?"))
+        tot["solves:%s:last-phase-%s" % (alg_of(rec["opts"]), ph)] += 1
+        tot["solves:judged" if rec["oracle"] is not None else "solves:not-judged"] += 1
+        for k, v in sts.items(): tot["returned-status:%s:last-phase-%s" % (k, ph)] += v
+    return {"solves": len(fam), "histogram": dict(tot), "per_solve": per}
 
 
 # ----------------------------------------------------------------------------- context reuse family
@@ -494,6 +534,7 @@ def judge(ctx, rec, stats, samples, nontrivial):
     r, c, opts = rec["res"], rec["case"], rec["opts"]
     cc = cfg_class(rec)
     rp = {"case": c["name"], "class": c["cls"], "text": c["text"], "opts": opts, "config": cc, "max_bits": c.get("max_bits")}
+    if c.get("oracle_target_log2") is not None: rp["oracle_target_log2"] = c["oracle_target_log2"]
     if rec.get("reuse"):
         rp["reuse"] = {"pattern": rec["reuse"]["pattern"], "k": rec["reuse"]["k"],
                        "segments": [{k: v for k, v in s.items() if k != "coeffs"} for s in rec["reuse"]["segments"]]}
@@ -575,8 +616,13 @@ def judge(ctx, rec, stats, samples, nontrivial):
             elif lo == 1 and hi == 1: stats["d:exactly-one"] += 1
             elif hi == 0: stats["d:empty(reported under b)"] += 1
             else: stats["d:undecided"] += 1
+            if c["cls"] == "multiple-roots-dpe-phase":
+                stats["dpe-multiple-root-family:%s:%s-disc:%s" % (cc, S.STATUS[st].lower(),
+                      "VIOLATION-several-roots" if lo >= 2 else "exactly-one" if (lo == 1 and hi == 1) else "empty" if hi == 0 else "undecided")] += 1
         else:
             stats["status:%s(no exactly-one claim)" % S.STATUS[st]] += 1
+            if c["cls"] == "multiple-roots-dpe-phase":
+                stats["dpe-multiple-root-family:%s:%s-disc:no-exactly-one-claim(holds %s roots)" % (cc, S.STATUS[st].lower(), lo if lo == hi else "%s..%s" % (lo, hi))] += 1
     # ---- (c) coverage
     ev += 1
     if len(fin) < n:
@@ -635,18 +681,26 @@ def run(ctx):
             seqs = [(rp["reuse"]["pattern"], [({"name": s["name"], "cls": s.get("cls", "replay"), "text": s["text"], "coeffs": None, "degree": 0,
                                                 "max_bits": rp.get("max_bits")}, s["opts"]) for s in rp["reuse"]["segments"]])]
         else:
-            case = {"name": rp["case"], "cls": rp.get("class", "replay"), "text": rp["text"], "coeffs": None, "degree": 0, "max_bits": rp.get("max_bits")}
+            case = {"name": rp["case"], "cls": rp.get("class", "replay"), "text": rp["text"], "coeffs": None, "degree": 0, "max_bits": rp.get("max_bits"),
+                    "oracle_target_log2": rp.get("oracle_target_log2")}
             co = [(case, rp["opts"])]
     else:
         co = build_cases(ctx)
         seqs = reuse_sequences(ctx)
-    ctx.log("running %d solves and %d reuse sequences (%d solves on reused contexts)" % (len(co), len(seqs), sum(len(s[1]) for s in seqs)))
-    only = os.environ.get("VERIF_C01_ONLY", "")          # development aid: "trace" / "reuse" run only that family
-    recs = e2e.run_records_safe(ctx, binary, co if not only else [], env, timeout=ctx.pick(30, 600))
+    # multiple roots settled in the DPE phase: kept apart from `co` (the event-trace selection shuffles `co`)
+    dco = dpe_multiple_jobs(ctx) if not ctx.replay else []
+    ctx.log("running %d solves, %d solves of the DPE-phase multiple-root family and %d reuse sequences (%d solves on reused contexts)"
+            % (len(co), len(dco), len(seqs), sum(len(s[1]) for s in seqs)))
+    only = os.environ.get("VERIF_C01_ONLY", "")          # development aid: "trace" / "reuse" / "dpemult" run only that family
+    recs = e2e.run_records_safe(ctx, binary, (co if not only else []) + (dco if only in ("", "dpemult") else []), env, timeout=ctx.pick(30, 600))
     rrecs = run_reuse(ctx, rbinary, seqs if only in ("", "reuse") else [], env, timeout=ctx.pick(60, 600))
     recs += rrecs
     nfloat = mark_exact_float_inputs(recs)
     ctx.log("solves done")
+    for rec in recs:          # a case may fix the resolution it needs (a root far below every returned radius)
+        mt = rec["case"].get("oracle_target_log2")
+        if mt is not None and rec["res"].kind == "ok":
+            rec["target_override"] = min(e2e.min_radius_log2(S.discs_of(rec["res"]), floor=-10 ** 9) - 16, mt)
     # resolution cap by degree (cost of a certificate ~ degree^2 * bits^2)
     if ctx.quick(): cap = lambda d: 1300 if d <= 2 else 700 if d <= 4 else 420 if d <= 8 else 280
     else: cap = lambda d: 3400 if d <= 4 else 2000 if d <= 8 else 1000 if d <= 16 else 600 if d <= 24 else 400
@@ -711,6 +765,7 @@ def run(ctx):
            "reuse_pattern_histogram": dict(collections.Counter(r["reuse"]["pattern"] for r in rrecs)),
            "reuse_segment_outcome_histogram": dict(collections.Counter("%d:%s:%s" % (r["reuse"]["k"], r["case"].get("tag", "?"), r["res"].kind) for r in rrecs)),
            "class_histogram": dict(collections.Counter(r["case"]["cls"] for r in recs)),
+           "dpe_multiple_root_family": dpe_multiple_histogram(recs),
            "config_histogram": dict(collections.Counter(cfg_class(r) for r in lists)),
            "options_histogram": dict(collections.Counter(" ".join(x for x in r["opts"] if x not in ("-j", "1")) for r in recs)),
            "degree_histogram": dict(collections.Counter(r["res"].parsed_degree for r in lists)),
